@@ -20,3 +20,9 @@ Ltac case_if :=
   | |- context [if ?b then _ else _] =>
     let E := fresh "E" in destruct b eqn:E
   end.
+
+Ltac case_if_in H :=
+  match type of H with
+  | context [if ?b then _ else _] =>
+    let E := fresh "E" in destruct b eqn:E
+  end.
